@@ -7,8 +7,8 @@ git checkout -q -- lib util
 cmake --build _build >/dev/null 2>&1
 bash $d/demo.sh >/dev/null 2>&1; clean_rc=$?
 git apply $d/patch.diff || { echo "CONFIRM $wt/$i patch does not apply"; exit 3; }
-cmake --build _build --target check > /tmp/confirm_check.log 2>&1
-tests=$(grep -o "[0-9]*% tests passed, [0-9]* tests failed out of [0-9]*" /tmp/confirm_check.log)
+cmake --build _build --target check > $wt/confirm_check.log 2>&1
+tests=$(grep -o "[0-9]*% tests passed, [0-9]* tests failed out of [0-9]*" $wt/confirm_check.log)
 bash $d/demo.sh >/dev/null 2>&1; mut_rc=$?
 git checkout -q -- lib util
 cmake --build _build >/dev/null 2>&1
